@@ -6,6 +6,7 @@ F : exhaustive dtype audit and mpmath accuracy checks (fals/C12.py).
 """
 from __future__ import annotations
 
+import math
 import os
 
 from maps_corr import mismatch_failure, run_maps_correspondence
@@ -73,12 +74,16 @@ def map_accuracy_case(rep, r: dict) -> None:
         el = cheetah.Quadrupole(length=t(q["L"]), k1=t(q["s"]), misalignment=t([q["mx"], q["my"]]), dtype=dtype)
         R = F.mp_quad_R(q["L"], q["s"], 0.0, q["mx"], q["my"], q["E"])
     got = el.transfer_map(t(q["E"])).to(torch.float64).numpy()
+    # conditioning: the phase advance phi = k*L (sqrt(|k1|)*L) carries a relative round-off, i.e. an absolute error
+    # phi*eps in the argument of sin / cos / sinh / cosh
+    phi = abs(q["s"]) * q["L"] if cls == "Solenoid" else math.sqrt(abs(q["s"])) * q["L"]
+    cond = 1.0 + phi
     for i in range(6):
         scale = max(float(abs(R[i][j])) for j in range(6))
         for j in range(7):
             sc = scale if j < 6 else max(scale * max(abs(q["mx"]), abs(q["my"])), 1e-300)
             e = abs(float(mpf(float(got[i, j])) - R[i][j]))
-            if not e <= 64 * eps * sc + (1e-11 if cls == "Quadrupole" else 0.0):
+            if not e <= 64 * eps * sc * cond + (1e-11 if cls == "Quadrupole" else 0.0):
                 mag = "k*L<1e-3" if abs(q["s"]) * q["L"] ** (1 if cls == "Solenoid" else 2) < 1e-3 else "k*L>=1e-3"
                 rep.fail("falsifier", f"C12|accuracy|{cls}.transfer_map|{dtn}|{mag}",
                          f"{cls}(length={q['L']!r}, strength={q['s']!r}).transfer_map in {dtn}: R[{i},{j}] = {float(got[i, j])!r}, closed form "
